@@ -365,14 +365,43 @@ def cmp_atom(op, l, r, integer=False):
             d = -d
     a = "%s0(%s)" % (op.lower(), d)
     REG[a] = (op.lower() + "0", [d])
+    if integer:
+        INT_ATOMS.add(a)
     return a
+
+
+INT_ATOMS = set()   # comparison atoms over integers (their negation is again a comparison)
+
+
+def negate_cond(x):
+    """canonical logical negation of a normalised condition (a Rat holding one atom, or an atom string)."""
+    a = str(x)
+    if a in REG:
+        name, args = REG[a]
+        if name == "not":
+            return args[0] if isinstance(args[0], Rat) else Rat.atom(str(args[0]))
+        if name == "eq0":
+            return Rat.atom(cmp_atom("Ne", args[0], 0))
+        if name == "ne0":
+            return Rat.atom(cmp_atom("Eq", args[0], 0))
+        if name == "gt0" and a in INT_ATOMS:      # !(d > 0)  <=>  1 - d > 0 over the integers
+            return Rat.atom(cmp_atom("Gt", 1 - _r(args[0]), 0, integer=True))
+    if a == "true":
+        return Rat.atom("false")
+    if a == "false":
+        return Rat.atom("true")
+    return fn_atom("not", x if isinstance(x, Rat) else Rat.atom(a))
 
 
 def ite(cond, a, b):
     a, b = _r(a), _r(b)
     if a == b:
         return a
-    return fn_atom("ite", str(cond), a, b)
+    cs = str(cond)
+    # canonical orientation: never branch on a negation / on `!=`
+    if cs in REG and REG[cs][0] in ("not", "ne0"):
+        return ite(negate_cond(cs), b, a)
+    return fn_atom("ite", cs, a, b)
 
 
 # ------------------------------------------------------------------ HIR -> Rat
@@ -440,7 +469,7 @@ class Norm:
             if n["op"] == "Neg":
                 return -self.norm(n["x"])
             if n["op"] == "Not":
-                return fn_atom("not", self.norm(n["x"]))
+                return negate_cond(self.norm(n["x"]))
         if k == "bin":
             op = n["op"]
             if op in ("Lt", "Le", "Gt", "Ge", "Eq", "Ne"):
@@ -724,8 +753,13 @@ class Sym:
                     continue
                 cond = str(self._norm(st, env).norm(s["c"]))
                 if not self._mentions_cell(s["c"], st) and not any(a in cond for a in st):
-                    t = self._exec_block(s["th"], [(g + ((cond, True),), st, env)])
-                    e = self._exec_block(s["el"], [(g + ((cond, False),), st, env)]) if s["el"] is not None else [(g + ((cond, False),), st, env)]
+                    # canonical guard polarity: never fork on a negation (`if !c {A} else {B}` forks on c, swapped)
+                    pos_, neg_ = True, False
+                    if cond in REG and REG[cond][0] == "not":
+                        cond = str(negate_cond(cond))
+                        pos_, neg_ = False, True
+                    t = self._exec_block(s["th"], [(g + ((cond, pos_),), st, env)])
+                    e = self._exec_block(s["el"], [(g + ((cond, neg_),), st, env)]) if s["el"] is not None else [(g + ((cond, neg_),), st, env)]
                     out += t + e
                 else:
                     t = self._exec_block(s["th"], [(g, st, env)])
